@@ -322,14 +322,9 @@ func runResp(d desc) hlib.Case {
 	c := hlib.Case{Kind: "resp-" + d.Req, Size: size}
 	c.Coq = hlib.App("CResp", hlib.N(uint64(d.Part)), hlib.Bool(d.Req == "head11"), coqProg(prog), coqRobs(a), coqRobs(n))
 	switch d.Part {
-	case 0, 2:
-		if pc.lateStatus {
-			c.Key = "late-writeheader"
-		}
 	case 1:
+		// (late-writeheader / late-header-mutation were repaired in 8ad8bae: those programs must pass now)
 		switch {
-		case pc.lateHeader:
-			c.Key = "late-header-mutation"
 		case pc.singleton:
 			c.Key = "singleton-header-collapse"
 		case pc.ct304:
